@@ -203,6 +203,23 @@ func init() {
 	})
 }
 
+func mainUnit(name, run string, quick, thorough int) unit {
+	return unit{Name: name, Pkg: ".", Harness: "main", Run: run, Rapid: true, Quick: quick, Thorough: thorough, QuickTimeoutS: 600, ThoroughTimeoutS: 3000}
+}
+
+func init() {
+	props = append(props, prop{
+		ID: "C02", Title: "compaction, snapshot and restore never change the replicated state", Level: "fault_enumeration",
+		LevelText:  "A rapid state machine over the real FSM (real LevelDB log copy, output stream and file snapshot store): generated logs (ircgen histories with index gaps, config entries that change the expiration, arbitrary time jumps) and generated schedules of Apply / Snapshot+Persist at generated compaction times (horizon before everything, at or around any entry, after everything) / Persist failing after k bytes / applies between Snapshot and Persist / Restore of the newest snapshot / restart with a fresh FSM. After every action the node is compared with a reference that applied the same prefix through the real applyRobustMessage and never snapshotted: full state (reflection walk), output per retained input, and exact agreement of log copy and output store with a model of what has been folded.",
+		LevelNote:  "The horizon is computed from the expiration in force on the reference; compaction times are non-decreasing as wall-clock time is. Process restarts are modelled as a fresh FSM over the on-disk stores (a real single node cannot restart, see DESIGN.md 3.5).",
+		Technique:  "stateful property-based testing (rapid) with generated fault schedules against a never-snapshotted reference and a fold model",
+		DesignRef:  "4/C02",
+		Rule:       "case = generated log (4-50 entries) + 3-30 generated actions; non-trivial = a snapshot that folded >=1 entry was later followed by a restore or restart; labels count the sub-classes (snapshot folded everything, failed persist, applies between snapshot and persist, config entry in the log, legacy JSON encoding); distinct = hash of log + actions",
+		Assumptions: []string{"Snapshot and Restore run on raft's FSM goroutine and are never concurrent with Apply", "compaction times are non-decreasing"},
+		Units:      []unit{mainUnit("fsm", "^TestVerifC02$", 3200, 48000)},
+	})
+}
+
 // notApplicable lists properties that are not claimed (yet), with the reason.
 var notApplicable = map[string]string{}
 
